@@ -460,6 +460,10 @@ def case(ctx, i):
             ctx.close("cube_transform_vectors_fn", CU.cube_transform_vectors(torch.tensor(v), c1, Axes.CUBE, c2, Axes.CUBE), wantv, tv, key="cube/helpers")
             L_ = CU.cube_vectors_transform(c1, Axes.CUBE, c2, Axes.CUBE).double().numpy()
             ctx.close("cube_vectors_transform_fn", v @ L_[:D, :D].T, wantv, tv, key="cube/helpers")
+            # world coordinates into the cube of the *other* domain object (and its vectors)
+            t_w2 = r2.tol(np.abs(wx), WORLD, own2, eps=eps, k=K)
+            ctx.close("world_to_other_cube_points", c1.transform_points(torch.tensor(wx), Axes.WORLD, Axes.CUBE, to_cube=c2), r2.points(wx, WORLD, own2), t_w2, key="cube/helpers/world_to_other_cube")
+            ctx.close("world_to_other_cube_vectors", c1.transform_vectors(torch.tensor(v), Axes.WORLD, Axes.CUBE, to_cube=c2), r2.vectors(v, WORLD, own2), r2.tol(np.abs(v), WORLD, own2, eps=eps, k=K, vectors=True), key="cube/helpers/world_to_other_cube")
             Mi = hom_np(c1.inverse_transform(), D)
             t_c = r1.tol(np.abs(wx), WORLD, own1, eps=eps, k=K)
             ctx.close("cube_inverse_transform_maps_world_to_cube", wx @ Mi[:, :D].T + Mi[:, D], cx, t_c + t_w @ np.abs(r1.matrix(WORLD, own1)[:D, :D]).T, key="cube/helpers")
